@@ -226,6 +226,13 @@ class SourceToSourceFileImportsTransformation(SourceToSourceTransformationBase):
                 break
         else:
             # First block is entirely comments, so just insert after it.
+            text = self.blocks[0].input.text.joined
+            if len(self.blocks) == 1 and text and not text.endswith("\n"):
+                # The comments are the whole file and the last line is not
+                # terminated; terminate it before appending to it.
+                eol = SourceToSourceTransformation("")
+                eol._output = PythonBlock("\n")
+                blocks = [eol] + blocks
             self.blocks[1:1] = blocks
 
     def insert_new_import_block(self):
